@@ -85,6 +85,47 @@ def table_keys(fns, gens_self):
     return keys
 
 
+def fn_shape(text):
+    """hash of a function's text from its parameter list to the end of its body, whitespace- and comment-insensitive (the name is not part of it)"""
+    st = rtok.sig(rtok.lex(text))
+    fn_i = next(i for i, t in enumerate(st) if t[1] == 'fn')
+    return hashlib.sha256(' '.join(t[1] for t in st[fn_i + 2:]).encode()).hexdigest()[:16]
+
+
+def G_shapes():
+    try:
+        with open(os.path.join(VERIF, 'obligations.lock')) as f:
+            return json.load(f).get('shapes', {})
+    except (OSError, ValueError):
+        return {}
+
+
+def resolve_renamed(repo, fns, shapes):
+    """R19: a function under contract that is no longer found under its name but whose exact body (parameter list to closing brace) is found
+    under another name in the same scope of the same file is taken to be that function, renamed."""
+    for fs in fns:
+        if fs.slice or fs.rename or fs.fid not in shapes:
+            continue
+        src = read(os.path.join(repo, fs.src))
+        try:
+            extract.find_fn(src, fs.scope, fs.name)
+            continue
+        except extract.AnchorLost as e:
+            if ': 0 candidates' not in str(e):
+                continue
+        toks, st, items = extract._scan_items(src)
+        want = rtok.norm(fs.scope) if fs.scope else None
+        hits = []
+        for scopes, nm, start, fn_i, open_i, close_i in items:
+            impls = [x for x in scopes if x.startswith('impl') or x.startswith('trait')]
+            if (want is None and not impls) or (want is not None and impls and impls[-1] == want):
+                if fn_shape(src[st[start][2]:st[close_i][3]]) == shapes[fs.fid]:
+                    hits.append(nm)
+        if len(hits) == 1:
+            fs.src_name = hits[0]
+            fs.renamed_note = 'R19 function `%s` found as `%s` (same parameter list and body)' % (fs.fid.split('::')[-1], hits[0])
+
+
 def has_self(repo, fs):
     if fs.slice:
         return 'self' in fs.sig.split(')')[0]
@@ -221,7 +262,19 @@ def assemble(repo=REPO, mutate_hook=None, only_units=None, canary=False, skip=()
     eff = load_effectful()
     items = [f for f in fns if f.is_item]
     fns = [f for f in fns if not f.is_item]
+    resolve_renamed(repo, fns, G_shapes())
     selfmap = {fs.fid: has_self(repo, fs) for fs in fns}
+    names = {fs.name for fs in fns} | {fs.rename for fs in fns if fs.rename}
+    for fs in fns:
+        if fs.slice:
+            m = re.search(r'fn\s+(\w+)', fs.sig)
+            if m:
+                names.add(m.group(1))
+    for fn in os.listdir(os.path.join(VERIF, 'prelude')):
+        if fn.endswith('.rs'):
+            names |= set(re.findall(r'\bfn\s+(\w+)', read(os.path.join(VERIF, 'prelude', fn))))
+    genmod.KNOWN_FN_NAMES = names
+    genmod.driver_fn_shape = fn_shape
     tkeys = table_keys(fns, selfmap)
     G = Generated()
     out = []   # (line_text, fid, origin)
